@@ -558,6 +558,6 @@ func TestFuzzSeeds(t *testing.T) {
 		Classify: func(c SeedCase) (bool, []string) {
 			return true, []string{"target:" + c.Target, lbl("seed:%s#%d", c.Target, c.Index)}
 		},
-		Quick: 40, Thorough: 200,
+		Quick: 30, Thorough: 200,
 	})
 }
